@@ -106,6 +106,7 @@ type State struct {
 	writes     *WriteSet
 	chanInfo   map[string]*chanInfo
 	named      []namedRef
+	boxedHere  map[*Cell]bool  // cells whose content has been moved to the box heap on this path
 	scopeNeeds []scopeNeed     // row sources introduced on this path that still need an owner predicate (scope.go)
 	ctes       map[string]bool // names defined by With(name, ...) on this path
 }
@@ -220,6 +221,12 @@ func (s *State) clone() *State {
 	n.held = append([]string{}, s.held...)
 	n.named = append([]namedRef{}, s.named...)
 	n.scopeNeeds = append([]scopeNeed{}, s.scopeNeeds...)
+	if s.boxedHere != nil {
+		n.boxedHere = make(map[*Cell]bool, len(s.boxedHere))
+		for k := range s.boxedHere {
+			n.boxedHere[k] = true
+		}
+	}
 	if s.ctes != nil {
 		n.ctes = map[string]bool{}
 		for k := range s.ctes {
@@ -467,6 +474,9 @@ func balanced(s string) bool {
 func implies(a, b string) string {
 	if a == "true" {
 		return b
+	}
+	if a == "false" {
+		return "true"
 	}
 	if b == "true" {
 		return "true"
